@@ -459,6 +459,9 @@ func TestC08(t *testing.T) {
 
 	t.Run("random", func(t *testing.T) {
 		rapid.Check(t, func(rt *rapid.T) {
+			if pastSoftDeadline(st) {
+				return
+			}
 			var c c08Case
 			kind := rapid.IntRange(0, 9).Draw(rt, "kind")
 			switch {
